@@ -155,3 +155,52 @@ def strict(v, rows):
     v.cov["strict_traces_explained_by_spec"] = accepted
     v.cov["strict_traces_skipped"] = len(tr) - len(keep)
     return accepted
+
+
+# --------------------------------------------------------------------------
+# pair scenarios: two real sessions (spec/PairEnv.tla generates the application scripts)
+
+def run_pair(v, pid, tier, seed, replay_steps=None):
+    out = vlib.outdir(pid)
+    scen = os.path.join(out, "pair_scenarios.ndjson")
+    if replay_steps is not None:
+        rows = [{"id": "replay", "steps": replay_steps}]
+    else:
+        cfg = "PairEnv_quick.cfg" if tier == "quick" else "PairEnv_thorough.cfg"
+        res = vlib.run_tlc("PairEnv", cfg, workers=4, timeout=900, heap_gb=6)
+        vlib.tlc_must_pass(res, cfg)
+        v.add_tlc(cfg + "(enumerate application scripts)", res)
+        rows = [{"id": "pair%d" % i, "steps": p["steps"]} for i, p in enumerate(x for x in res.printed if isinstance(x, dict) and "steps" in x)]
+        if not rows:
+            raise vlib.MachineryError("PairEnv produced no scripts")
+        # hand-written: the nested-call-into-a-closing-endpoint schedules (DESIGN.md section 9 lead 9)
+        rows += [{"id": "pair.lead9.client", "steps": [["ccall", "k1", "nest"], ["cclose", "c1"], ["rel", "k1", "nest"], ["swait", "sw"]]},
+                 {"id": "pair.closeDeliversResponse", "steps": [["ccall", "k1", "nest"], ["rel", "k1", "nest"], ["sclose", "s1"], ["cwait", "cw"]]}]
+    vlib.write_ndjson(scen, rows)
+    obs = os.path.join(out, "pair_obs.ndjson")
+    rc, gout, wall = vlib.go_test("mcp", "^TestVerif_ConnPair$", ["mcp/conn_harness_test.go", "mcp/conn_pair_test.go"],
+                                  env={"VERIF_IN": scen, "VERIF_OUT": obs, "VERIF_SEED": seed, "VERIF_CS": "0"}, timeout=2400)
+    vlib.go_must_build(rc, gout, pid + " pair")
+    orows = vlib.read_ndjson(obs) if os.path.exists(obs) else []
+    if rc != 0 and not any(r.get("ev") == "panic" for r in orows):
+        raise vlib.MachineryError("pair harness failed:\n" + gout[-3000:])
+    fails, mres = vlib.run_monitor("PairMon", "PairMon.cfg", obs, timeout=1800, heap_gb=8)
+    v.add_tlc("PairMon", mres)
+    traces = vlib.split_traces(orows)
+    by_id = {r["id"]: r for r in rows}
+    other = {}
+    for f in fails:
+        clause = f["monfail"]
+        tid, start, trows = vlib.trace_of_line(traces, f["line"])
+        if clause.startswith(pid + ".") or clause.startswith("X."):
+            steps = by_id.get(tid, {}).get("steps", [])
+            sig = "%s:pair/%s" % (clause, ",".join(":".join(s[:1] + s[2:3]) if s[0] in ("ccall", "rel") else s[0] for s in steps))
+            v.violation(sig, "%s failed on a real client/server pair (trace %s)" % (clause, tid), {"pair_steps": steps})
+        else:
+            other[clause] = other.get(clause, 0) + 1
+    v.cov["pair_scenarios"] = len(traces)
+    v.cov["pair_other_property_clauses_failed"] = other
+    v.cov["evaluations"] = v.cov.get("evaluations", 0) + sum(len(r["steps"]) for r in rows)
+    v.cov["traces_validated_against_impl"] = v.cov.get("traces_validated_against_impl", 0) + len(traces)
+    v.cov["distinct_nontrivial"] = v.cov.get("distinct_nontrivial", 0) + len(traces)
+    return traces
